@@ -1,0 +1,28 @@
+//go:build verif
+
+// Package verifhook provides build-tag guarded instrumentation points used by
+// the external verification harness. With the `verif` tag off every call is an
+// empty function.
+package verifhook
+
+import "sync/atomic"
+
+// Enabled reports whether the hooks are compiled in.
+const Enabled = true
+
+type hookFn func(point string, kv ...interface{})
+
+var fn atomic.Value
+
+// Set installs the hook function (nil disables it).
+func Set(f func(point string, kv ...interface{})) {
+	fn.Store(hookFn(f))
+}
+
+// At reports that the calling goroutine reached the named point. The installed
+// function may block: that is how the harness holds a goroutine at that point.
+func At(point string, kv ...interface{}) {
+	if f, _ := fn.Load().(hookFn); f != nil {
+		f(point, kv...)
+	}
+}
